@@ -18,6 +18,10 @@ CHECKS = {
    text='the real generate_init_segment runs on a stored fixture init segment with symbolic content bytes; DRM selection strings pass through the real option parser and DrmContext; the PlayReady Object is an opaque symbolic blob; an independent walker proves that every stored box is byte-identical and in order, that exactly the expected pssh boxes are appended (SystemID, key id, payload) and that mehd disappears in live mode only',
    note='fixture init segments (clear video/audio/text, encrypted video/audio); key rows, current_stream, is_https_request, CORS helper and PlayReady.generate_pro are stand-ins; quick tier: 15 DRM selections, thorough: all combinations of systems and location sets',
    ref='DESIGN.md 5 C10'),
+ 'C11': dict(
+   text='partial claim, byte-level kernels: PlayReady.hex_to_le_guid against the RFC 4122 bytes_le permutation, generate_content_key against the published key-seed algorithm with SHA-256 as an uninterpreted function (z3 congruence), generate_checksum with AES as an uninterpreted function, ClearKey base64url encode/decode and KeyMaterial hex/base64 forms over symbolic bytes through 4-/6-bit linear character models',
+   note='not claimed: WRMHEADER / PRO generation and parsing, ContentProtection element rendering, licence endpoint database lookup, the SHA-256 / AES primitives themselves',
+   ref='DESIGN.md 5 C11'),
  'C12': dict(
    text='ServeMpsMedia.calculate_media_segment_index executed with a symbolic Period source offset (any microsecond of the first loop) and symbolic segment number against the nearest-start oracle; ManifestContext.create_all_vod_periods with symbolic period durations; create_all_live_periods on concrete period tables under a symbolic clock window and depth',
    note='Period / stream rows are stand-ins, create_period returns Period(id, duration); the nearest-start oracle allows one reference tick of slack; offsets beyond the first loop and per-period track selection are outside',
